@@ -50,6 +50,9 @@ func Abs(ctx *expr.Context, input system.Collection, args ...expr.Expression) (s
 		}
 		// Absolution number
 		res := math.Abs(number)
+		if !isFinite(res) {
+			return system.Collection{}, nil
+		}
 		result := decimal.NewFromFloat(res)
 		return system.Collection{system.Decimal(result)}, nil
 	case system.Quantity:
@@ -108,6 +111,9 @@ func Exp(ctx *expr.Context, input system.Collection, args ...expr.Expression) (s
 	}
 	// Exp number
 	res := math.Pow(math.E, number)
+	if !isFinite(res) {
+		return system.Collection{}, nil // overflow: empty
+	}
 	result := system.MustParseDecimal(fmt.Sprintf("%v", res))
 	return system.Collection{result}, nil
 }
@@ -153,8 +159,8 @@ func Ln(ctx *expr.Context, input system.Collection, args ...expr.Expression) (sy
 		return nil, err
 	}
 	res := math.Log(number)
-	// Validating NaN case
-	if math.IsNaN(res) {
+	// Validating NaN / infinite case
+	if !isFinite(res) {
 		return system.Collection{}, nil
 	}
 	// Type conversion to system.Decimal
@@ -188,8 +194,8 @@ func Log(ctx *expr.Context, input system.Collection, args ...expr.Expression) (s
 	}
 	// Log number to base
 	res := logToBase(number, base)
-	// Validating NaN case
-	if math.IsNaN(res) {
+	// Validating NaN / infinite case
+	if !isFinite(res) {
 		return system.Collection{}, nil
 	}
 	// Type conversion to system.Decimal
@@ -242,8 +248,8 @@ func Power(ctx *expr.Context, input system.Collection, args ...expr.Expression) 
 	}
 	// Powering number
 	res := math.Pow(number, exp)
-	// Validating NaN case
-	if math.IsNaN(res) {
+	// Validating NaN / infinite case
+	if !isFinite(res) {
 		return system.Collection{}, nil
 	}
 	// Type conversion to system.Decimal
@@ -326,6 +332,9 @@ func Sqrt(ctx *expr.Context, input system.Collection, args ...expr.Expression) (
 	}
 	// Ceiling number
 	value := math.Sqrt(number)
+	if !isFinite(value) {
+		return system.Collection{}, nil
+	}
 	result := decimal.NewFromFloat(value)
 	return system.Collection{system.Decimal(result)}, nil
 }
@@ -352,6 +361,11 @@ func Truncate(ctx *expr.Context, input system.Collection, args ...expr.Expressio
 		return system.Collection{}, nil
 	}
 	return system.Collection{system.Integer(result)}, nil
+}
+
+// isFinite reports whether f is neither NaN nor an infinity (such values have no Decimal representation).
+func isFinite(f float64) bool {
+	return !math.IsNaN(f) && !math.IsInf(f, 0)
 }
 
 // fitsInteger reports whether the (integral) float value is representable as a System Integer.
